@@ -27,7 +27,7 @@ ENGINE = "E4-injection+E1-svcgen-rig"
 TECHNIQUE = "stress with injected delays on a real threaded socket server; solo-vs-concurrent trace differential + serve() occupancy monitor"
 LEVEL_TEXT = (
     "Exploration (stress-sampled interleavings, not enumerated): generated 2-3 client scripts against a real threaded "
-    "unix/tcp server under seeded delay injection, max_connections in {None,1,2}. Held = every concurrent trace equalled its "
+    "unix/tcp server (incl. ctx-less methods and a cancel hook that logs) under seeded delay injection, max_connections in {None,1,2}. Held = every concurrent trace equalled its "
     "solo trace, no state object was stepped from two connections, and occupancy of serve() never exceeded max_connections."
 )
 LEVEL_NOTE = "schedules are whatever the OS scheduler plus injected delays produce; evidence reports observed overlap (max simultaneous connections inside serve)"
